@@ -1003,6 +1003,114 @@ def report(ck, res):
                                'checks/c01_gadgets.py: canonicalisation of logged constraints, run-A/run-B differential scheme']
 
 
+# ----------------------------------------------------------------------------- per-run validator of C01_compose's hypotheses
+# graph-export keys of the constraint types whose conversion has a proved C01_gadget_* theorem
+PROVED_CONVERSIONS = {'_abs', '_min', '_max', '_and', '_or', '_not', '_ifthen', '_impl', '_count', '_numberofconst',
+                      '_numberofvar', '_div', '_linfunccon', '_quadfunccon',
+                      '_condlineq', '_condlinle', '_condlinlt', '_condlinge', '_condlingt',
+                      '_linrange', '_quadrange', '_indle', '_indeq', '_indge', '_uenc',
+                      # plain algebraic rows are never converted by a gadget
+                      '_linle', '_lineq', '_linge', '_quadle', '_quadeq', '_quadge'}
+_VAL_DRV = {}
+
+
+def _val_driver():
+    """one drv_c01 per worker process"""
+    d = _VAL_DRV.get(os.getpid())
+    if d is None:
+        d = Driver(os.path.join(LEAN, '.lake', 'build', 'bin', 'drv_c01'))
+        _VAL_DRV[os.getpid()] = d
+    return d
+
+
+def validate_model(exe, stub, options, n_orig, quadobj=1):
+    """Decide the hypotheses WF and CtxCovers of C01_compose on the contexts the real converter recorded.
+    The model at <stub>.nl is run once more with every functional type natively accepted, so that each stored
+    definition is logged with its result variable, arguments and context (contexts as propagated by flattening;
+    contexts added later during conversion are not visible in this run).  The decision itself is made by the
+    Lean functions wfB / ctxGaps (drv_c01 validate), which are proved sound (C01_validator_*_sound).
+    returns dict(status, wf, gaps[list], outside[list of reasons])"""
+    opts = [o for o in options if not o.startswith('acc:')]
+    r = recsolver.run(exe, stub, options=opts, accept=BASE_ACCEPT, quadobj=quadobj, timeout=60)
+    if r['rc'] != 0 or not any(e.get('ev') == 'end' for e in r['log']):
+        return {'status': 'no-flat-model'}
+    vs = vars_of(r['log'])
+    outside = []
+    defs = []
+    roots = []
+    cons = [e for e in r['log'] if e.get('ev') == 'con']
+    defined = {e['data']['res'] for e in cons if isinstance(e['data'], dict) and e['data'].get('res', -1) >= 0 and 'ctx' in e['data']}
+    # variables created by conversions that run even with every type accepted (var==const in ConvertMaps): not original,
+    # not a result variable, not a fixed constant.  Rows over them are conversion products of a natively delivered
+    # definition (implied by it), not root constraints.
+    convaux = {i for i in range(n_orig, len(vs)) if i not in defined and vs[i][0] != vs[i][1]}
+    # results of reified `var == const` comparisons and the compared variables: the unary encoding rows
+    # (sum of flags = 1, sum value*flag - var = 0) produced in ConvertMaps are over exactly these
+    ueflags, uevars = set(), set()
+    for e in cons:
+        if e['type'] == 'CondLinConEQ' and len(e['data']['con']['body']['v']) == 1:
+            ueflags.add(e['data']['res'])
+            uevars.add(e['data']['con']['body']['v'][0])
+    skipped = 0
+    for e in r['log']:
+        if e.get('ev') == 'obj':
+            if e.get('kind') == 'quad' and e['quad']['c']:
+                outside.append('quadratic-objective')
+            continue
+        if e.get('ev') != 'con':
+            continue
+        tn, d = e['type'], e['data']
+        if isinstance(d, dict) and d.get('res', -1) >= 0 and 'ctx' in d:
+            if d['ctx'] == 'none':
+                continue          # never used: no context was ever propagated to it (dead definition)
+            cs = con_s(e)
+            if cs.startswith('OTHER'):
+                outside.append('unmodelled-type:' + tn)
+                continue
+            t = cs.split(' ')
+            kind, fields = t[3], t[4:]
+            if kind.startswith('CondLin'):
+                kind, fields = 'CondLin', [kind[7:]] + fields
+            if kind == 'Pow' and ('/' in fields[-1] or fields[-1].startswith('-')):
+                outside.append('pow-non-natural-exponent')
+                continue
+            defs.append((int(t[1]), ';'.join([t[1], t[2], kind] + fields)))
+        elif tn.startswith('LinCon'):
+            body = d['body']
+            if any(v in convaux for v in body['v']) or \
+                    (tn == 'LinConEQ' and any(v in ueflags for v in body['v'])
+                     and all(v in ueflags or v in uevars or v in convaux for v in body['v'])):
+                skipped += 1
+                continue
+            roots.append('%s;%s;%s' % (lin_s(body), bs(nb(d['lb']), True), bs(nb(d['ub']), False)))
+        elif tn.startswith('IndicatorLinCon') and (d['b'] in convaux or d['b'] in defined
+                                                   or any(v in convaux for v in d['con']['body']['v'])):
+            skipped += 1
+        elif tn.startswith('QuadCon'):
+            outside.append('quadratic-root')
+        else:
+            outside.append('root-type:' + tn)
+    defs.sort()
+    # logical results fixed true / false are root requirements on the result variable (FixAsTrue)
+    for res, txt in defs:
+        kind = txt.split(';')[2]
+        if kind in ('And', 'Or', 'Not', 'Impl', 'CondLin', 'AllDiff') and res < len(vs):
+            lb, ub, _ = vs[res]
+            if lb is not None and lb >= 1:
+                roots.append('1*%d;1;inf' % res)
+            elif ub is not None and ub <= 0:
+                roots.append('1*%d;-inf;0' % res)
+    line = 'validate n0=%d defs=%s roots=%s %s' % (n_orig, '|'.join(t for _, t in defs), '|'.join(roots), bnds_arg(vs))
+    ans = _val_driver().ask(line)
+    if not ans.startswith('valid '):
+        return {'status': 'driver-bad-op', 'line': line[:400], 'outside': outside}
+    t = ans.split(' ')
+    wf = t[1] == 'wf=1'
+    gaps = [g for g in t[3:] if g]
+    return {'status': 'ok', 'wf': wf, 'gaps': gaps, 'outside': sorted(set(outside)), 'ndefs': len(defs), 'nroots': len(roots),
+            'conversion_rows_skipped': skipped}
+
+
 def run_gadgets(ck, n_cases=None, proof=True):
     """proof stage + gadget correspondence; returns dict(proof_ok, failing, disagreements)"""
     t0 = time.time()
